@@ -114,7 +114,8 @@ func (m *c04mon) Check(s *sim.Sim, st *sim.Step) []*sim.Violation {
 				if a.Secret == "" || sec == "" {
 					judged = false // resend request / no code outstanding: not an attempt
 				} else {
-					ok = a.Secret == sec
+					// correct = the code outstanding in this session, delivered to this account's number
+					ok = a.Secret == sec && s.SMSSentTo(u.SMSPhone, a.Secret)
 				}
 			}
 			if !judged {
@@ -123,9 +124,15 @@ func (m *c04mon) Check(s *sim.Sim, st *sim.Step) []*sim.Violation {
 			U = u.PID
 			au := m.auto(u)
 			if ok {
-				au.count = 0
+				// the second step is guarded like the first: a locked account stays out
+				locked := au.until.After(now)
 				au.last, au.hasLast = now, true
-				ev = "2fa-success"
+				if locked {
+					ev = "2fa-correct-blocked"
+				} else {
+					au.count = 0
+					ev = "2fa-success"
+				}
 			} else {
 				au.fail(now, W, D, N)
 				ev = "2fa-failure"
